@@ -12,6 +12,11 @@ TARGET = os.path.join(ROOT, "target", "probes")
 KNOWN = os.path.join(ROOT, "known_findings.txt")
 EVID = os.path.join(ROOT, "evidence")
 REPLAYS = os.path.join(ROOT, "replays")
+if os.environ.get("ANYVEC_SRC", "/repo") != "/repo":
+    # a run against another source tree keeps its evidence / replays / generated crates apart from those of /repo
+    import hashlib as _h
+    _alt = os.path.join(ROOT, "target", "alt-" + _h.sha1(os.environ["ANYVEC_SRC"].encode()).hexdigest()[:8])
+    EVID, REPLAYS, TARGET = os.path.join(_alt, "evidence"), os.path.join(_alt, "replays"), os.path.join(_alt, "probes")
 ENV = dict(os.environ, CARGO_NET_OFFLINE="true", CARGO_TARGET_DIR=TARGET)
 
 CARGO_TOML = """[package]
